@@ -4,7 +4,10 @@ import (
 	"encoding/base64"
 	"encoding/json"
 	"math/rand"
+	"net/url"
+	"strconv"
 	"strings"
+	"time"
 )
 
 func mkIDToken(email string, verified bool, segs int, badB64, badJSON bool) string {
@@ -205,6 +208,20 @@ func afPrelude() []afCase {
 			s.Csrf = ""
 			s.Query = [][2]string{{"error", "server_error"}, {"error_description", "x"}, {"state", base64.URLEncoding.EncodeToString([]byte("x:https://foo.x.io@evil.io/"))}}
 		}),
+		// a hand-made state naming a sign_in URL whose proxy signature is long stale, with a matching hand-made CSRF cookie: the
+		// callback may send the browser there, but only as written — it never refreshes a signature
+		cb("google", func(s *afStep) {
+			s.Csrf = "c0ffee"
+			ts := strconv.FormatInt(time.Now().Unix()-3600, 10)
+			inner := url.Values{"redirect_uri": {afCallbackURI}, "ts": {ts}, "sig": {afSig(afProxySecret, afCallbackURI, ts)}, "client_id": {afProxyID}, "state": {"s"}}
+			s.Query = [][2]string{{"code", "idp-code"}, {"state", base64.URLEncoding.EncodeToString([]byte("c0ffee:https://" + afHost + "/google/sign_in?" + inner.Encode()))}}
+		}),
+		cb("okta", func(s *afStep) {
+			s.Csrf = "c0ffee"
+			ts := strconv.FormatInt(time.Now().Unix()-86400*30, 10)
+			inner := url.Values{"redirect_uri": {afCallbackURI}, "ts": {ts}, "sig": {afSig(afProxySecret, afCallbackURI, ts)}, "client_id": {afProxyID}, "state": {"s"}}
+			s.Query = [][2]string{{"code", "idp-code"}, {"state", base64.URLEncoding.EncodeToString([]byte("c0ffee:https://" + afHost + "/okta/sign_in?" + inner.Encode()))}}
+		}),
 		afStep{Slug: "google", Endpoint: "start", Query: [][2]string{{"redirect_uri", "https://evil.io/"}}},
 		afStep{Slug: "google", Endpoint: "start", Query: [][2]string{{"redirect_uri", "https://" + afHost + "/google/sign_in?redirect_uri=https%3A%2F%2Fevil.io%2F&sig=x&ts=1"}}},
 		afStep{Slug: "google", Endpoint: "start", Query: [][2]string{{"redirect_uri", "https://" + afHost + "/google/sign_in?redirect_uri=https%3A%2F%2Fapp.x.io%2Foauth2%2Fcallback&sig=bad&ts=1"}}},
@@ -339,6 +356,15 @@ func afPrelude() []afCase {
 		cred("redeem", "POST", Q("client_id", afProxyID), Q("client_secret", afProxySecret), nil, func(s *afStep) { s.Code = "genuine" }),
 		cred("redeem", "POST", nil, Q("client_id", afProxyID, "client_secret", "wrong"), H("X-Client-Secret", afProxySecret), func(s *afStep) { s.Code = "genuine" }),
 		cred("redeem", "POST", nil, Q("client_id", afProxyID, "client_secret", afProxySecret[:5]), nil, func(s *afStep) { s.Code = "genuine" }),
+		// near misses of the secret: one byte off in the middle, right last byte only, the secret with more behind it or in front
+		cred("redeem", "POST", nil, Q("client_id", afProxyID, "client_secret", afProxySecret[:3]+"X"+afProxySecret[4:]), nil, func(s *afStep) { s.Code = "genuine" }),
+		cred("redeem", "POST", nil, Q("client_id", afProxyID, "client_secret", strings.Repeat(afProxySecret[len(afProxySecret)-1:], len(afProxySecret))), nil, func(s *afStep) { s.Code = "genuine" }),
+		cred("redeem", "POST", nil, Q("client_id", afProxyID, "client_secret", strings.Repeat("A", len(afProxySecret)-1)+afProxySecret[len(afProxySecret)-1:]), nil, func(s *afStep) { s.Code = "genuine" }),
+		cred("refresh", "POST", nil, Q("client_id", afProxyID, "client_secret", afProxySecret+"x", "refresh_token", "rt"), nil, nil),
+		cred("validate", "GET", Q("client_id", afProxyID), nil, H("X-Client-Secret", "x"+afProxySecret, "X-Access-Token", "at"), nil),
+		cred("profile", "GET", Q("client_id", afProxyID, "email", "ann@x.io", "groups", "eng"), nil, H("X-Client-Secret", strings.ToUpper(afProxySecret), "X-Access-Token", "at"), nil),
+		cred("redeem", "POST", nil, Q("client_id", afProxyID[:3]+"X"+afProxyID[4:], "client_secret", afProxySecret), nil, func(s *afStep) { s.Code = "genuine" }),
+		cred("redeem", "POST", nil, Q("client_id", afProxyID+"x", "client_secret", afProxySecret), nil, func(s *afStep) { s.Code = "genuine" }),
 		cred("redeem", "POST", nil, Q("client_id", afProxyID, "client_secret", strings.ToUpper(afProxySecret)), nil, func(s *afStep) { s.Code = "genuine" }),
 		cred("redeem", "POST", nil, Q("client_id", "", "client_secret", afProxySecret), nil, func(s *afStep) { s.Code = "genuine" }),
 		cred("redeem", "POST", nil, Q("client_secret", afProxySecret), nil, func(s *afStep) { s.Code = "genuine" }),
